@@ -86,7 +86,8 @@ func (r *Report) GetCommand() sms.ICommander {
 
 func (r *Report) GenEmptyResponse() sms.PDU {
 	return &ReportResp{
-		Header: sgip.NewHeader(0, sgip.SGIP_REPORT_REP, r.Header.Sequence[0], r.GetSequenceID()),
+		// the response carries the sequence number of the request, all three parts (SGIP 1.2 §3.4)
+		Header: sgip.Header{TotalLength: 0, CommandID: sgip.SGIP_REPORT_REP, Sequence: r.Header.Sequence},
 	}
 }
 
